@@ -228,7 +228,16 @@ func applyOps(t *byteTable, b *msBeh) *applied {
 		case "fromtext":
 			m := &sse.Message{}
 			m.AppendData("left over from before") // UnmarshalText must overwrite previous fields
-			err := m.UnmarshalText([]byte(str))
+			buf := []byte(str)
+			err := m.UnmarshalText(buf)
+			// the decoded message owns its values: reusing the input buffer must not change it
+			enc := m.String()
+			for i := range buf {
+				buf[i] = '\n'
+			}
+			if m.String() != enc {
+				a.problems = append(a.problems, fmt.Sprintf("op %d: the message decoded by UnmarshalText(%q) changed when the caller reused its buffer: %q -> %q", k+1, str, enc, m.String()))
+			}
 			if (err != nil) != op.Err {
 				a.problems = append(a.problems, fmt.Sprintf("op %d: UnmarshalText(%q): error %v, spec: error %v", k+1, str, err, op.Err))
 			}
